@@ -27,7 +27,8 @@ Init == /\ l = 1 /\ run = 0 /\ bad = {} /\ lk = 0
 
 E == Rec[l]
 \* remember where every rule was first broken in every run (bounded, so a badly broken build stays cheap)
-Note(b, vs) == IF Cardinality(b) > 400 THEN b ELSE b \cup { <<v[1], v[2], run, l>> : v \in vs }
+\* (bounded PER PROPERTY, so that a flood of flags of one property cannot hide another property's)
+Note(b, vs) == b \cup { <<v[1], v[2], run, l>> : v \in { w \in vs : Cardinality({x \in b : x[1] = w[1]}) < 120 } }
 Step(m2, c2) == /\ mon' = m2 /\ cnt' = c2
                 /\ bad' = Note(bad, (m2.viol \ mon.viol) \cup (c2.viol \ cnt.viol))
                 /\ l' = l + 1 /\ UNCHANGED <<run, lk>>
